@@ -1,6 +1,7 @@
 import KernDriver.Tokens
 import KernDriver.Abstract
 import KernModel.Spec.Tracker
+import KernModel.Spec.TextExport
 namespace KD.DocOps
 open Lean KM KD KD.TokOps
 
@@ -65,10 +66,16 @@ def handle (op : String) (j : Json) : Except String Json := do
     | .error e => pure (Json.mkObj [("import", Json.mkObj [("err", Json.str (errName e))])])
     | .ok d =>
       let ex := exports.map (fun o => jexcept jstr (Export.exportString d o))
+      -- the specification of dumps(loads(text), options) as a function of the text (KernModel.Spec.TextExport; theorem C10_export_of_text):
+      -- for the option sets without a measure range
+      let rows := readRows text
+      let sk := (KM.Spec.Track.run rows).skel
+      let tk := (KM.C02K.TT.run P rows).toks
+      let sp := exports.map (fun o => if o.fromM.isNone && o.toM.isNone then jexcept jstr (KM.C10T.specExportA o sk tk) else Json.null)
       pure (Json.mkObj [("import", Json.mkObj [("ok", if wantTree then jdoc d else Json.mkObj [("starts", jnats d.starts),
           ("errors", Json.arr (d.errors.map (fun (l, t) => Json.arr #[Json.num (JsonNumber.fromNat l), jstr t])).toArray),
           ("n_stages", Json.num (JsonNumber.fromNat d.stages.length))])]),
-        ("exports", Json.arr ex.toArray)])
+        ("exports", Json.arr ex.toArray), ("spec", Json.arr sp.toArray), ("wf", Json.bool (KM.Spec.Track.wf rows))])
   | "doc.transpose" =>
     let text ← getStr j "text"
     let table ← oracleOfJson (← j.getObjVal? "oracle")
